@@ -66,6 +66,11 @@ def run(ctx):
                    "under the other setting the deleted mailbox keeps its object and its "
                    "subscribers, who then receive the next incarnation's messages")
     shared.r_wire(ctx, "R05.wire")
+    from .c10 import _orphans
+    _orphans(ctx, "R05.incarnation", "the messages of a mailbox are deleted in the "
+             "transaction that deletes its row (same rule instances as R01.codel): "
+             "otherwise the sides of the next incarnation of the id are sent the messages "
+             "of the finished one -- more than two sides see them")
     shared.r_collation(ctx, "R05.exact", ('mailbox_sides', 'nameplate_sides'),
                        'a third side whose string differs only in case is taken for one of the two')
     shared.r_durable(ctx, "R05.durable", ("chan",),
